@@ -3,7 +3,9 @@
 //! Case (JSON):
 //!   cells:  [ null | {"x":[..],"y":[..]} ]           cell k is named "c{k}"; null = a Cell without any view
 //!   nodes:  [ NODE ]                                  the pool of placeables; node id = index = pointer identity
-//!   runs:   [ {"instances":[ids], "places":[ids]} ]   each run builds a FRESH library (same pool, other listing)
+//!   runs:   [ {"instances":[ids], "places":[ids]} ]   each run builds a FRESH library (same pool, other listing);
+//!            optional per run: "wrap":n (n cells above the parent, each instantiating the one below), "sibling":"before"|"after"
+//!            (one more cell with a relative placement of its own, listed before / after the parent)
 //! NODE = {"k":"inst","cell":c,"loc":LOC,"rh":b,"rv":b}          Ptr<Instance>, named "i{id}"
 //!      | {"k":"array","arr":ARR,"loc":LOC,"rh":b,"rv":b}       Ptr<ArrayInstance>, named "a{id}"
 //!      | {"k":"port","inst":j}                                  Placeable::Port{inst: node j, port:"P"}
@@ -15,7 +17,8 @@
 //! `instances` ids must be inst nodes (they go to `Layout::instances`), `places` ids go to `Layout::places`
 //! (inst nodes there become `Placeable::Instance`).
 //!
-//! Result: {"runs":[ R ]},  R = {"ok":[[name, node_id_or_-1, cell, LOCOUT, rh, rv] ..], "places":n}
+//! Result: {"runs":[ R ]},  R = {"ok":[[name, node_id_or_-1, cell, LOCOUT, rh, rv] ..], "places":n, "all_abs":bool (every instance of
+//!                             every cell of the returned library is absolute, no places left), "sibling":[x,y]|"rel"|null (where the sibling's s1 went)}
 //!                             | {"err": text} | {"panic": text}
 //! LOCOUT = [xdir,xnum,ydir,ynum] | "rel"
 use l21h::{json, Value};
@@ -234,6 +237,28 @@ fn one_run(case: &Value, run: &Value) -> Value {
     for j in run["places"].as_array().unwrap() {
         parent.places.push(placeable(&nodes, j.as_u64().unwrap() as usize));
     }
+    // ---- optional: a sibling cell with a relative placement of its own, listed before the parent (generator audit 2026-10-02)
+    let sibling_mode = run["sibling"].as_str().unwrap_or("");
+    let mut sib_s1: Option<Ptr<Instance>> = None;
+    let mut add_sibling = |lib: &mut Library| {
+        let unit = lib.cells.add(Cell::from(Layout::new("sib_unit", 0, Outline::rect(2, 3).unwrap())));
+        let s0 = Ptr::new(Instance { inst_name: "s0".into(), cell: unit.clone(), loc: (5, 7).into(), reflect_horiz: false, reflect_vert: false });
+        let s1 = Ptr::new(Instance {
+            inst_name: "s1".into(),
+            cell: unit.clone(),
+            loc: Place::Rel(RelativePlace { to: Placeable::Instance(s0.clone()), side: Side::Right, align: Align::Side(Side::Bottom), sep: Separation::default() }),
+            reflect_horiz: false,
+            reflect_vert: false,
+        });
+        let mut sib = Layout::new("sib", 0, Outline::rect(50, 50).unwrap());
+        sib.instances.push(s1.clone()); // the dependent first
+        sib.instances.push(s0);
+        lib.cells.add(Cell::from(sib));
+        sib_s1 = Some(s1);
+    };
+    if sibling_mode == "before" {
+        add_sibling(&mut lib);
+    }
     let parent_ptr = match parent_ptr {
         Some(p) => {
             p.write().unwrap().layout = Some(parent);
@@ -241,6 +266,16 @@ fn one_run(case: &Value, run: &Value) -> Value {
         }
         None => lib.cells.add(parent),
     };
+    // ---- optional: `wrap` cells above the parent, each instantiating the one below at an absolute location
+    let mut below = parent_ptr.clone();
+    for k in 0..run["wrap"].as_u64().unwrap_or(0) {
+        let mut w = Layout::new(format!("wrap{}", k), 0, Outline::rect(200, 200).unwrap());
+        w.instances.push(Ptr::new(Instance { inst_name: "w".into(), cell: below.clone(), loc: ((k + 1) as isize, (k + 2) as isize).into(), reflect_horiz: false, reflect_vert: k % 2 == 1 }));
+        below = lib.cells.add(Cell::from(w));
+    }
+    if sibling_mode == "after" {
+        add_sibling(&mut lib);
+    }
     // ---- the code under test
     let stack = empty_stack();
     let res = catch_unwind(AssertUnwindSafe(|| Placer::place(lib, stack)));
@@ -260,7 +295,29 @@ fn one_run(case: &Value, run: &Value) -> Value {
             s.truncate(160);
             json!({ "err": s })
         }
-        Ok(Ok((_lib, _stack))) => {
+        Ok(Ok((rlib, _stack))) => {
+            // every instance of every cell of the returned library is absolutely placed, no `places` are left
+            let mut all_abs = true;
+            for cp in rlib.cells.iter() {
+                let c = cp.read().unwrap();
+                if let Some(l) = c.layout.as_ref() {
+                    if l.places.len() != 0 {
+                        all_abs = false;
+                    }
+                    for ip in l.instances.iter() {
+                        if let Place::Rel(_) = ip.read().unwrap().loc {
+                            all_abs = false;
+                        }
+                    }
+                }
+            }
+            let sibling = match &sib_s1 {
+                Some(p) => match &p.read().unwrap().loc {
+                    Place::Abs(xy) => json!([xy.x.num as i64, xy.y.num as i64]),
+                    Place::Rel(_) => json!("rel"),
+                },
+                None => Value::Null,
+            };
             let pc = parent_ptr.read().unwrap();
             let layout = pc.layout.as_ref().unwrap();
             let mut out = Vec::new();
@@ -278,7 +335,7 @@ fn one_run(case: &Value, run: &Value) -> Value {
                 };
                 out.push(json!([i.inst_name, id, cell, loc, i.reflect_horiz, i.reflect_vert]));
             }
-            json!({ "ok": out, "places": layout.places.len() })
+            json!({ "ok": out, "places": layout.places.len(), "all_abs": all_abs, "sibling": sibling })
         }
     }
 }
